@@ -30,6 +30,12 @@ CHECKS = {
     'C15': dict(tech='frame conditions of every GraphSLAM action imposed on recorded executions: TLC -simulate generates call sequences, the real graph is stepped along them, Trace_GraphSLAM validates every event (binding B)',
                 text='Every public call (15 kinds of query incl. numerical Jacobians, contributions, export, plot, pose operators, copies; SetFixed; optimize) is an action of GraphSLAM with an explicit frame condition. TLC-generated behaviours (<= 30 / 50 actions) are executed on real graphs of every kind incl. aliased pose objects; after EVERY call bitwise digests of all poses, measurements, information matrices, offsets, flags, ids and orders are logged and TLC checks the action predicate on (state, state\'), plus determinism of repeated queries while poses are unchanged.',
                 ref='4 C15', note='Digests are SHA-1 of the float64 bytes. plot uses the Agg backend. Violations of the optimize frame that involve a NaN solve are reported under C06.'),
+    'C03': dict(tech='TLA+ Assembly model: exact b = sum J^T W e and H = sum J^T W J by dual numbers, block layout by list order, reduced system for the fixed set, evaluated by TLC; one real optimizer iteration replayed and compared (binding A), incl. warm-up call histories',
+                text='The specification assembles the normal equations of a lattice graph exactly (rationals; SE(2) angle atoms symbolic), placing blocks by list order and by the order in which an edge names its vertices, summing parallel edges, and deleting fixed vertices; TLC checks H symmetric on the model. The increment that optimize(tol=0,max_iter=1) applies to every vertex (recovered with the library ominus) must equal the exact Gauss-Newton step and fixed vertices must not move; initial_chi2 must equal the exact chi^2. Cases cover either naming order, parallel edges, mixed dimensionality, several fixed vertices, unary/binary/ternary custom edges, permuted lists, four id maps, and a history in which the same Graph object was optimised before with a smaller fixed set.',
+                ref='4 C03', note=L1 + ' The reduced linear system is solved exactly with Python Fractions (TLC integers overflow beyond about 5 unknowns); one step from lattice states only (L2); custom edges with numerical Jacobians are held to 2e-5*sqrt(cond). Either sign convention of the SE(3) rotational error is accepted (raw or canonical), consistently.'),
+    'C08': dict(tech='one exact TLA+ evaluation (Assembly, physical semantics: rotation = {q,-q}, angle mod 2pi, edges keyed by vertex id) per graph; every representation of it built in the code and compared with that single oracle (binding A)',
+                text='For each lattice graph TLC evaluates chi^2 and the first Gauss-Newton step once; vertex/edge list permutations, id relabellings (negative, sparse, > 2^32), 2*pi*m shifts, sign patterns of vertex / measurement / offset quaternions (all patterns for small graphs in the thorough tier), an edge split into two halves and information scaled by 0.25/3/1000 are built as real graphs and must reproduce that chi^2 (scaled) and that step per vertex.',
+                ref='4 C08', note=L1 + ' One step from lattice states (L2). Half-turn rotational errors and +-pi angular errors are excluded (sign undetermined).'),
 }
 NA_REASON = 'check not built yet in this round (planned, see DESIGN.md section 4)'
 
